@@ -65,7 +65,14 @@ def monitor(ctx, spec, out):
                 return
 
 
+def pre_build(ctx):
+    import gen_units
+    gen_units.pre_build(ctx, "translate_coreopt")
+
+
 def run(ctx):
+    import gen_units
+    gen_units.g_unit(ctx, "translate_coreopt")
     from props import c01_units
     c01_units.run_units(ctx)
     ctx.monitor_rule = ("every parameter dict handed to the objective or to a constraint consists of genuine elements of the "
